@@ -366,8 +366,37 @@ pub fn c05(a: &Args) {
     let mut mismatches = Vec::new();
     let mut digests: Vec<String> = Vec::new();
     let (mut sessions, mut runs) = (0usize, 0usize);
-    for (ci, c) in cases.iter().enumerate() {
-        if ci % stride != 0 || c["expect"]["st"] != "ok" {
+    // random sessions over a pool in which identifiers and struct names collide (case / separator variants, prefixes),
+    // with attributes, text and several documents: inputs on which any internal order is observable
+    let nrandom = a.num("random", 0) as usize;
+    let mut extra_cases: Vec<Value> = Vec::new();
+    if nrandom > 0 {
+        use crate::gen::*;
+        let mut r = Rng::new(a.num("seed", 1));
+        for s in 0..nrandom {
+            let mut g = GenCfg::rich();
+            g.names = ["Foo", "foo", "FOO", "a-b", "a.b", "a_b", "ns:a", "x:a", "a", "type", "Type", "text"].iter().map(|x| x.to_string()).collect();
+            g.attrs = ["id", "Id", "ID", "x-y", "x_y", "n:q", "q", "type", "text", "xmlns:n"].iter().map(|x| x.to_string()).collect();
+            g.max_depth = 2 + r.below(3);
+            g.max_kids = 2 + r.below(4);
+            g.pretty = s % 4 == 0;
+            let k = 3 + r.below(5);
+            let mut pool = g.names.clone();
+            r.shuffle(&mut pool);
+            pool.truncate(k);
+            g.names = pool;
+            let root = r.pick(&g.names).clone();
+            let nd = 1 + r.below(3);
+            let docs: Vec<Value> = (0..nd).map(|_| {
+                let budget = 2 + r.below(20);
+                let d = document(&mut r, &g, &root, budget);
+                json!({"hex": hex(&d), "cfg": {}})
+            }).collect();
+            extra_cases.push(json!({"docs": docs, "expect": {"st": "ok"}}));
+        }
+    }
+    for (ci, c) in cases.iter().chain(extra_cases.iter()).enumerate() {
+        if (ci < cases.len() && ci % stride != 0) || c["expect"]["st"] != "ok" {
             continue;
         }
         let docs: Vec<(Vec<u8>, ReaderCfg)> = if c.get("docs").is_some() {
